@@ -429,7 +429,7 @@ ell_cases = st.fixed_dictionaries({"vcv": st.one_of(psd_cond(), psd_cond(), tie_
 SUBCHECKS = [
     SubCheck("local_frame", check_frame, strategy=frame_cases, nontrivial=_nt_rot, classes=_cls, quick=3000, thorough=200000,
              shards_quick=2, shards_thorough=8,
-             rule="rotation_matrix columns = (east, north, normal), orthonormal, det +1; enu2xyz / xyz2enu exact inverses, length preserving"),
+             fresh=(8, 64, 3), rule="rotation_matrix columns = (east, north, normal), orthonormal, det +1; enu2xyz / xyz2enu exact inverses, length preserving"),
     SubCheck("covariance_rotation", check_vcv, strategy=vcv_cases, nontrivial=_nt_rot, classes=_cls, quick=3000, thorough=200000,
              shards_quick=2, shards_thorough=8, seq_groups=[["lat", "lon"], ["vcv"]],
              rule="3x3: equals R^T V R / R V R^T, symmetric, eigenvalues and trace preserved, round trip, argument untouched"),
@@ -440,7 +440,7 @@ SUBCHECKS = [
              shards_thorough=8, rule="a^2, b^2 = eigenvalues of the 2x2 block (a >= b >= 0, singular input included); orientation = bearing of the major axis"),
     SubCheck("relative_error", check_relative, strategy=relative_cases(), classes=_cls, quick=2000, thorough=100000,
              shards_quick=2, shards_thorough=8,
-             rule="ellipse and up sigma of R^T (var1 + var2 - cov12 - cov12^T) R with a non-symmetric cov12 block from a valid joint covariance"),
+             fresh=(8, 64, 3), rule="ellipse and up sigma of R^T (var1 + var2 - cov12 - cov12^T) R with a non-symmetric cov12 block from a valid joint covariance"),
     SubCheck("t_table", check_table, enumerate=enumerate_table, shards_quick=1, shards_thorough=1, exhaustive="both",
              rule="all integer dof -5..200: table = round(t_0.975(dof), 5) for 1..120, value for 1 below, 1.96 above; TypeError for non-int"),
 ]
